@@ -611,6 +611,113 @@ func sweep(g *tr.G) {
 	}
 }
 
+// ---------------------------------------------------------------- scale
+//
+// Sizes around the thresholds of the machinery under the readers and formatters: a line that does
+// not fit bufio's 4096-byte buffer (with a one- or two-byte marker and the newline in front of /
+// behind it, so every length from 4090 to 4098 is a different case), 8192, and beyond; an edit of
+// 255..1025 (thorough: ..8193) lines and a file of 1..65 hunks (append growth of e.X, e.Y, Edits and
+// of the readers' chunk slice); several files with many hunks each in one git wrapper (the
+// readers' chunk slice is handed from one patch to the next).
+
+func scaleLine(n, salt int) string {
+	const pat = "ab-+ @<>\\*!d\tq-- ++ @@ xyz"
+	b := make([]byte, n)
+	for i := range b {
+		b[i] = pat[(i+salt)%len(pat)]
+	}
+	if n > 0 {
+		b[n-1] = 'z' // no trailing blank or CR: the line has to survive tools that trim
+	}
+	return string(b)
+}
+
+// scaleHunks: two files that differ in m two-line replacements, far enough apart to stay separate hunks at context ctx.
+func scaleHunks(m, ctx, salt int) (l, r []string) {
+	for i := 0; i < m; i++ {
+		for j := 0; j < 2*ctx+2; j++ {
+			s := "u" + strconv.Itoa(salt) + "." + strconv.Itoa(i) + "." + strconv.Itoa(j)
+			l, r = append(l, s), append(r, s)
+		}
+		l = append(l, "o"+strconv.Itoa(i), "- ")
+		r = append(r, "n"+strconv.Itoa(i), "+"+strconv.Itoa(i))
+	}
+	return append(l, "tail"), append(r, "tail")
+}
+
+func scale(g *tr.G) {
+	lens := []int{4090, 4091, 4092, 4093, 4094, 4095, 4096, 4097, 4098, 8189, 8190, 8191, 8192, 8193, 8194, 12288, 20000}
+	if g.Thorough() {
+		for k := 6; k <= 16; k++ {
+			lens = append(lens, 1<<k-2, 1<<k-1, 1<<k, 1<<k+1)
+		}
+		lens = append(lens, 100000) // the extracted model's list functions are not tail recursive: ~150000 bytes per text is the limit of an 8 MB stack
+	}
+	for i, n := range lens {
+		for ri, role := range sweepRoles {
+			if g.Thorough() && n <= 20000 || ri == i%5 {
+				sweepEmit(g, scaleLine(n, i), role, (i+ri)%3, i, 1, nil, "long-line")
+			}
+		}
+		if i%3 == 0 && n <= 40000 {
+			sweepGit(g, scaleLine(n, i), sweepRoles[i%4], i%2, sweepRoles[(i+1)%4], (i+1)%2, 1)
+		}
+	}
+	// one edit of many lines
+	for i, n := range append([]int{255, 256, 257, 1023, 1024, 1025}, []int{2047, 2049, 4095, 4097, 8193}[:g.Scale(0, 5)]...) {
+		var blk []string
+		for j := 0; j < n; j++ {
+			blk = append(blk, "v"+strconv.Itoa(j%97)+"."+strconv.Itoa(j))
+		}
+		pre, post := []string{"k1", "k2", "k3"}, []string{"k5", "k6", "k7"}
+		var l, r []string
+		switch i % 3 {
+		case 0:
+			l, r = slices.Concat(pre, blk, post), slices.Concat(pre, post)
+		case 1:
+			l, r = slices.Concat(pre, post), slices.Concat(pre, blk, post)
+		case 2:
+			l, r = slices.Concat(pre, blk, post), slices.Concat(pre, []string{"n1", "n2"}, blk[:n/2], post)
+		}
+		cs := chunksOf(l, r, 1+i%3)
+		rest := tr.HexList(l) + " " + tr.HexList(r) + " - " + encChunks(cs)
+		g.Emit("D "+rest, true, "scale", "scale-big-edit")
+		g.Emit("A "+rest, true, "scale")
+	}
+	// many hunks per file, several files per wrapper
+	counts := []int{1, 2, 3, 4, 5, 7, 8, 9, 15, 16, 17, 31, 32, 33, 63, 64, 65}
+	if g.Thorough() {
+		counts = append(counts, 127, 128, 129, 255, 256, 257, 511, 513, 1025)
+	}
+	for i, m := range counts {
+		ctx := i % 3
+		l, r := scaleHunks(m, ctx, i)
+		cs := chunksOf(l, r, ctx)
+		if len(cs) != m {
+			g.W.Count("scale-hunk-count-off(not intended)", 1)
+		}
+		rest := tr.HexList(l) + " " + tr.HexList(r) + " - " + encChunks(cs)
+		g.Emit("D "+rest, true, "scale", "scale-many-hunks")
+		g.Emit("A "+rest, true, "scale")
+	}
+	for i := 0; i+2 < len(counts) && counts[i+2] <= 130; i++ {
+		k := 2 + i%3
+		in := "G " + strconv.Itoa(k)
+		for j := 0; j < k; j++ {
+			m := counts[(i+(k-1-j))%len(counts)] // descending, then wrapping: a later file with fewer hunks than an earlier one and vice versa
+			if j == k-1 && i%2 == 0 {
+				m = counts[(i+k)%len(counts)]
+			}
+			ctx := (i + j) % 3
+			l, r := scaleHunks(min(m, 130), ctx, i*10+j)
+			junk := []string{"diff --git a/f b/f", "index 83a4f1..9bc2d0 100644"}
+			fi := &mdiff.FileInfo{Left: "a/f" + strconv.Itoa(j), Right: "b/f" + strconv.Itoa(j)}
+			in += " " + tr.HexList(junk) + " " + encFI(fi) + " " + encChunks(chunksOf(l, r, ctx))
+		}
+		g.Emit(in, true, "scale", "scale-git-many-hunks")
+	}
+}
+
 // mutate damages a rendered diff in one place.
 func mutate(r *tr.Rand, text string) string {
 	lines := strings.SplitAfter(text, "\n")
@@ -761,7 +868,7 @@ func gnuValidation(g *tr.G) {
 }
 
 func main() {
-	tr.Main("C14: every pair of texts over 3 symbols to length 3 (quick) / 4 (thorough) at contexts 0, 1, 3, each diff with and without a file header; a sweep of line texts - every string of length <= 2 (quick) / <= 3 (thorough) over the bytes the formats give a meaning to (- + space @ < > \\ * ! d TAB CR) and random longer ones built from them and from the words that open header lines - each as a deleted line, an added line, either side of a Replace and a context line, first, last and alone in its edit, among ordinary lines at contexts 1, 3 and 0, through Normal/Read, Unified/ReadUnified, Context and two-file git wrappers/ReadGitPatch; random texts of hostile lines (empty, starting with - + < > @ space --- diff, looking like hunk headers and change commands); long texts with line numbers of 2-4 digits; synthetic chunk lists (negative and inconsistent ranges, empty edits) for the formatter/reader correspondence; rendered diffs damaged in one place and hand-written texts for the readers; git-style wrappers around 1-3 renderings. For every diff the three renderings, Read/ReadUnified of them and the re-formatted patches are recorded. A case is non-trivial when the diff has at least one chunk (readers: always).",
+	tr.Main("C14: every pair of texts over 3 symbols to length 3 (quick) / 4 (thorough) at contexts 0, 1, 3, each diff with and without a file header; a sweep of line texts - every string of length <= 2 (quick) / <= 3 (thorough) over the bytes the formats give a meaning to (- + space @ < > \\ * ! d TAB CR) and random longer ones built from them and from the words that open header lines - each as a deleted line, an added line, either side of a Replace and a context line, first, last and alone in its edit, among ordinary lines at contexts 1, 3 and 0, through Normal/Read, Unified/ReadUnified, Context and two-file git wrappers/ReadGitPatch; a scale stream - lines of 4090..4098, 8189..8194, 12288, 20000 bytes (thorough: 2^k-2..2^k+1 up to 65537, and 100000) in every role, one edit of 255..1025 (thorough ..8193) lines, files of 1..65 (thorough ..1025) hunks, git wrappers of 2-4 files with up to 65 (129) hunks each; random texts of hostile lines (empty, starting with - + < > @ space --- diff, looking like hunk headers and change commands); long texts with line numbers of 2-4 digits; synthetic chunk lists (negative and inconsistent ranges, empty edits) for the formatter/reader correspondence; rendered diffs damaged in one place and hand-written texts for the readers; git-style wrappers around 1-3 renderings. For every diff the three renderings, Read/ReadUnified of them and the re-formatted patches are recorded. A case is non-trivial when the diff has at least one chunk (readers: always).",
 		exec, func(g *tr.G) {
 			// exhaustive tiny texts
 			alpha := []string{"a", "b", "c"}
@@ -779,6 +886,8 @@ func main() {
 			})
 			// every short text over the formats' special bytes, in every role a line can have
 			sweep(g)
+			// sizes around the thresholds underneath: 4096-byte reader buffer, append growth, many hunks, many files
+			scale(g)
 			// hostile line contents
 			for i := 0; i < g.Scale(4000, 100000); i++ {
 				sub := []string{tr.Pick(g.R, hostile), tr.Pick(g.R, hostile), tr.Pick(g.R, hostile)}
